@@ -23,29 +23,75 @@ var alphabet = [][]byte{
 	{0xc4}, {0xca}, // PROGRAM ENTRYID: items that alias the caller's program / context
 }
 
+func randItem(rng *rand.Rand, base byte) vmh.Bytes {
+	l := rng.Intn(5)
+	a := make(vmh.Bytes, l)
+	for k := range a {
+		a[k] = base + byte(rng.Intn(26))
+	}
+	return a
+}
+
+// sequences that pop, replace and extend the state data through the alt stack
+var stateMoves = [][]byte{
+	{0x6c, 0x75, 0x02, 0x6e, 0x77, 0x6b},       // FROMALTSTACK DROP "nw" TOALTSTACK   (pop and replace)
+	{0x6c, 0x8b, 0x76, 0x6b},                   // FROMALTSTACK 1ADD DUP TOALTSTACK    (counter)
+	{0x6c, 0x6c, 0x7c, 0x6b, 0x6b},             // FROMALTSTACK FROMALTSTACK SWAP TOALTSTACK TOALTSTACK
+	{0x01, 0x71, 0x6b},                         // "q" TOALTSTACK                      (push more)
+	{0x6b}, {0x6b, 0x6b},                       // TOALTSTACK (an argument)
+	{0x6c}, {0x6c, 0x6c}, {0x6c, 0x75},         // pop only
+	{0x6c, 0x76, 0x7e, 0x6b},                   // FROMALTSTACK DUP CAT TOALTSTACK
+	{0x6c, 0x51, 0x80, 0x6b},                   // FROMALTSTACK 1 LEFT TOALTSTACK
+	{0x6c, 0x83, 0x6b},                         // FROMALTSTACK INVERT TOALTSTACK
+}
+
 func gen(args []string) []*vmh.Case {
 	n, _ := strconv.Atoi(args[0])
 	rng := rand.New(rand.NewSource(vh.Seed()*7919 + 6))
 	var cs []*vmh.Case
+	ctx := func() vmh.Ctx {
+		x := vmh.DefaultCtx()
+		x.Entry = vmh.Bytes{0x65, 0x66, 0x67}
+		return x
+	}
+	// ---- directed: contracts that read and rewrite their state
+	B := func(b ...byte) vmh.Bytes { return vmh.Bytes(b) }
+	directed := []struct {
+		prog  vmh.Bytes
+		state []vmh.Bytes
+		args  []vmh.Bytes
+	}{
+		{B(0x6c, 0x8b, 0x76, 0x6b, 0x56, 0x9c), []vmh.Bytes{{5}}, nil},                                   // counter: FROMALTSTACK 1ADD DUP TOALTSTACK 6 NUMEQUAL
+		{B(0x6c, 0x75, 0x09, 'n', 'e', 'w', ' ', 's', 't', 'a', 't', 'e', 0x6b, 0x51), []vmh.Bytes{[]byte("owner"), []byte("old state")}, nil},
+		{B(0x01, 0x78, 0x6b, 0x51), []vmh.Bytes{[]byte("only")}, nil},                                     // "x" TOALTSTACK 1
+		{B(0x01, 0x78, 0x6b, 0x51), nil, nil},
+		{B(0x6b, 0x51), []vmh.Bytes{[]byte("s0")}, []vmh.Bytes{[]byte("arg")}},
+		{B(0x6c, 0x6c, 0x6c, 0x01, 0x7a, 0x6b, 0x6b, 0x6b, 0x6b, 0x51), []vmh.Bytes{{1}, {2}, {3}}, nil},
+		{B(0x6c, 0x6c, 0x7e, 0x6b, 0x51), []vmh.Bytes{[]byte("ab"), []byte("cd")}, nil},
+	}
+	for _, d := range directed {
+		cs = append(cs, &vmh.Case{Prog: d.prog, State: d.state, Args: d.args, Limit: 20000, Fam: "state-directed", Ctx: ctx()})
+	}
 	for i := 0; i < n; i++ {
-		c := &vmh.Case{Limit: 20000, Fam: "random"}
-		c.Ctx = vmh.DefaultCtx()
-		c.Ctx.Entry = vmh.Bytes{0x65, 0x66, 0x67}
+		c := &vmh.Case{Limit: 20000, Fam: "random", Ctx: ctx()}
 		nargs := 1 + rng.Intn(4)
 		for j := 0; j < nargs; j++ {
-			l := rng.Intn(5)
-			a := make([]byte, l)
-			for k := range a {
-				a[k] = byte('a' + rng.Intn(26))
-			}
-			c.Args = append(c.Args, a)
+			c.Args = append(c.Args, randItem(rng, 'a'))
 		}
-		if rng.Intn(3) == 0 {
-			c.State = append(c.State, vmh.Bytes{byte('A' + rng.Intn(26)), byte('A' + rng.Intn(26))})
+		// initial state data: 1..3 items in two cases out of three
+		if rng.Intn(3) != 0 {
+			for j := 1 + rng.Intn(3); j > 0; j-- {
+				c.State = append(c.State, randItem(rng, 'A'))
+			}
+			c.Fam = "random-state"
 		}
 		ninst := 3 + rng.Intn(10)
 		for j := 0; j < ninst; j++ {
-			c.Prog = append(c.Prog, alphabet[rng.Intn(len(alphabet))]...)
+			if len(c.State) > 0 && rng.Intn(4) == 0 {
+				c.Prog = append(c.Prog, stateMoves[rng.Intn(len(stateMoves))]...)
+			} else {
+				c.Prog = append(c.Prog, alphabet[rng.Intn(len(alphabet))]...)
+			}
 		}
 		cs = append(cs, c)
 	}
@@ -54,5 +100,5 @@ func gen(args []string) []*vmh.Case {
 
 func main() {
 	vmh.FailClassesEqual = true
-	vmh.Main(vmh.CmpOptions{Prefix: "alias", Layouts: vmh.Layouts}, gen)
+	vmh.Main(vmh.CmpOptions{Prefix: "alias", Layouts: vmh.Layouts, Twice: true}, gen)
 }
